@@ -142,6 +142,14 @@ def same_base_repeat(gen, items, rng):
         role = "ext"
     if len(vals) < 2:
         return None
+    if rng.random() < 0.3:
+        # a group repeated with its members in another order, beside a group of the same tags nested differently
+        a, b, c = gen._plain_atom(), gen._plain_atom(), gen._plain_atom()
+        cp = copy.deepcopy
+        items.append(annot.group([cp(a), annot.group([cp(b), cp(c)])]))
+        items.append(annot.group([cp(a), annot.group([cp(b)]), annot.group([cp(c)])]))
+        items.append(annot.group([annot.group([cp(c), cp(b)]), cp(a)]))
+        return items
     t1 = annot.tag(gen.spell(n), "/" + vals[0], n.path, role)
     t2 = annot.tag(gen.spell(n), "/" + vals[1], n.path, role)
     if role == "ext" and rng.random() < 0.5:
